@@ -62,6 +62,8 @@ theorem flushQ_drains (q : List KV) : ∀ (w : World) (slot : Nat) (h1 h2 b0 : B
 structure BInv (bw : BWorld) (c : Nat) (b : Backend) (h1 h2 b0 : Bytes) (recs : List KV) : Prop where
   here : getB bw c = some b
   rw_ : b.readonly = false
+  st : b.state = .writing
+  hf : b.hasFile = true
   sess : SessW bw.w b.slot h1 h2 b0 recs
   keys : b.keys = recs.map (·.key) ++ b.queue.map (·.key)
   qok : ∀ kv ∈ b.queue, kv.ok
@@ -76,7 +78,7 @@ theorem flush_drains {bw : BWorld} {c : Nat} {b : Backend} {h1 h2 b0 : Bytes} {r
       BInv bw' c { b with queue := [], usedmem := 0 } h1 h2 b0 (recs ++ b.queue) := by
   obtain ⟨w', hfl, hs'⟩ := flushQ_drains b.queue bw.w b.slot h1 h2 b0 recs hi.sess hi.qok hi.nodup
   refine ⟨setB { bw with w := w' } c (some { b with queue := [], usedmem := 0 }), by simp only [flush, hfl], ?_⟩
-  refine ⟨by simp [getB, setB], hi.rw_, hs', ?_, by simp, by simpa using hi.nodup⟩
+  refine ⟨by simp [getB, setB], hi.rw_, hi.st, hi.hf, hs', ?_, by simp, by simpa using hi.nodup⟩
   simp [hi.keys]
 
 theorem lookupQ_mem (q : List KV) (kv : KV) (hm : kv ∈ q) (hn : (q.map (·.key)).Nodup) :
@@ -128,7 +130,7 @@ theorem cput_ok {bw : BWorld} {c : Nat} {b : Backend} {h1 h2 b0 : Bytes} {recs :
   let b1 : Backend := { b with queue := b.queue ++ [⟨k, v⟩], keys := b.keys ++ [k],
                                usedmem := b.usedmem + klen + v.length }
   have hi1 : BInv (setB bw c (some b1)) c b1 h1 h2 b0 recs := by
-    refine ⟨by simp [getB, setB], hi.rw_, hi.sess, ?_, ?_, ?_⟩
+    refine ⟨by simp [getB, setB], hi.rw_, hi.st, hi.hf, hi.sess, ?_, ?_, ?_⟩
     · simp [b1, hi.keys, List.append_assoc]
     · intro kv hkv
       rcases List.mem_append.mp hkv with h | h
@@ -171,6 +173,222 @@ theorem cput_fail_frame (bw : BWorld) (c : Nat) (b : Backend) (hb : getB bw c = 
       · exact absurd h hr
       · exact absurd (by simpa using h) hk
       · exact ⟨.tooLong, by rw [if_pos h]⟩
+
+
+/-- All handle objects of the world are closed (no session is open). -/
+def AllClosed (w : World) : Prop := ∀ j h, getH w j = some h → h.closed = true
+
+/-- Between sessions: the backend object exists, is writable, has an empty queue, and its handle slot is
+consistent with `hasattr(self, "_ukvfile")`. -/
+structure Idle (bw : BWorld) (c : Nat) (b : Backend) : Prop where
+  here : getB bw c = some b
+  rw_ : b.readonly = false
+  empty : b.queue = []
+  slot : b.hasFile = (getH bw.w b.slot).isSome
+
+/-- **A writing session starts in the session invariant**: on a well-formed library with no session open,
+`writing()` (begin_write + update_keys) succeeds and establishes `BInv` with the keys of exactly the
+stored records — whether the backend opens its file for the first time or reopens a stale cached handle. -/
+theorem begin_establishes {bw : BWorld} {c : Nat} {b : Backend} {h1 h2 b0 : Bytes} {recs : List KV}
+    (hw : WF bw.w h1 h2 b0 recs) (hc : AllClosed bw.w) (hi : Idle bw c b) :
+    ∃ bw' b', bstep bw (.begin c true) = (bw', .ok) ∧ BInv bw' c b' h1 h2 b0 recs ∧ b'.queue = [] := by
+  have hb := hi.here
+  -- the world after begin_write: handle `b.slot` replaced by an open, synchronised handle in mode a
+  have key : ∃ h', (if b.hasFile then step bw.w (.reopen b.slot (some .a)) else step bw.w (.new b.slot .a [] [] [])) =
+      (setH { bw.w with file := bw.w.file } b.slot (some h'), .ok) ∧ h'.closed = false ∧ HInv h' h2 b0 recs ∧ h'.mode = .a := by
+    cases hf : b.hasFile with
+    | true =>
+      have hsome : (getH bw.w b.slot).isSome = true := by rw [← hi.slot, hf]
+      obtain ⟨h, hg⟩ := Option.isSome_iff_exists.mp hsome
+      have hcl := hc b.slot h hg
+      have hinv := hw.handles b.slot h hg
+      obtain ⟨h', ho, hc', hi', hm'⟩ := wf_open_ra hw b.slot { h with mode := .a } (Or.inr rfl) (by
+        obtain ⟨j, a, e⟩ := hinv_weaken_pre hinv
+        exact ⟨j, a, e⟩)
+      refine ⟨h', ?_, hc', hi', hm'⟩
+      have hnc : (!h.closed) = false := by rw [hcl]; rfl
+      simp only [step, hg, hnc, Bool.false_eq_true, ↓reduceIte, ho]
+    | false =>
+      obtain ⟨h', ho, hc', hi', hm'⟩ := wf_open_ra hw b.slot (newHandle .a [] [] []) (Or.inr rfl)
+        ⟨0, by simp [newHandle, tocOf], Or.inl rfl⟩
+      refine ⟨h', ?_, hc', hi', hm'⟩
+      simp only [step, ho, Bool.false_eq_true, ↓reduceIte]
+  obtain ⟨h', hstep, hopen, hinv', hmode⟩ := key
+  obtain ⟨htoc, heof⟩ := hinv'.sync hopen
+  have hw' : WF (setH { bw.w with file := bw.w.file } b.slot (some h')) h1 h2 b0 recs :=
+    wf_setH hw b.slot _ (fun x hx => by cases hx; exact ⟨hinv', fun hcc => by rw [hopen] at hcc; cases hcc⟩)
+  refine ⟨setB { bw with w := setH { bw.w with file := bw.w.file } b.slot (some h') } c
+      (some { b with hasFile := true, state := .writing, keys := recs.map (·.key) }),
+    { b with hasFile := true, state := .writing, keys := recs.map (·.key) }, ?_, ?_, hi.empty⟩
+  · simp only [bstep, hb, hi.rw_, Bool.and_false, Bool.false_eq_true, ↓reduceIte]
+    rw [hstep]
+    simp only [tocKeys, getH_setH_same, htoc, tocOf_keys]
+  · refine ⟨by simp [getB, setB], hi.rw_, rfl, rfl, ⟨hw', ?_, h', getH_setH_same _ _ _, ⟨hopen, by rw [hmode]; decide, htoc, heof⟩⟩,
+      by simp [hi.empty], by simp [hi.empty], by simpa [hi.empty] using hw.nodup⟩
+    intro j hj hji hgj
+    have hgj' : getH (setH { bw.w with file := bw.w.file } b.slot (some h')) j = some hj := hgj
+    rw [getH_setH_other _ _ _ _ hji] at hgj'
+    exact hc j hj hgj'
+
+
+
+/-- **The exit of a writing session** flushes what is queued, closes the file and leaves a well-formed
+library that holds the stored and the queued records, with no session open and the backend idle again. -/
+theorem end_restores {bw : BWorld} {c : Nat} {b : Backend} {h1 h2 b0 : Bytes} {recs : List KV}
+    (hi : BInv bw c b h1 h2 b0 recs) :
+    ∃ bw' b', bstep bw (.end_ c) = (bw', .ok) ∧ WF bw'.w h1 h2 b0 (recs ++ b.queue) ∧ AllClosed bw'.w ∧
+      Idle bw' c b' := by
+  obtain ⟨bw1, hfl, hi1⟩ := flush_drains hi
+  obtain ⟨h, hg, hsy⟩ := hi1.sess.handle
+  let b1 : Backend := { b with queue := [], usedmem := 0 }
+  have hb1 : getB bw1 c = some b1 := hi1.here
+  have hclose : ∃ hcl : Handle, hcl.closed = true ∧ (step bw1.w (.close b1.slot)).1 = setH bw1.w b1.slot (some hcl) := by
+    have hg' : getH bw1.w b1.slot = some h := hg
+    simp only [step, hg']
+    exact ⟨_, rfl, rfl⟩
+  obtain ⟨hcl, hclc, hclose⟩ := hclose
+  refine ⟨setB { bw1 with w := (step bw1.w (.close b.slot)).1 } c (some { b1 with state := .idle }),
+    { b1 with state := .idle }, ?_, ?_, ?_, ?_⟩
+  · simp only [bstep, hi.here, hi.st, hfl, hb1]
+  · exact wf_close hi1.sess.wf b.slot
+  · intro j hj hgj
+    have hgj' : getH (step bw1.w (.close b1.slot)).1 j = some hj := hgj
+    rw [hclose] at hgj'
+    by_cases hji : j = b1.slot
+    · subst hji; rw [getH_setH_same] at hgj'; cases hgj'; exact hclc
+    · rw [getH_setH_other _ _ _ _ hji] at hgj'
+      exact hi1.sess.others j hj hji hgj'
+  · refine ⟨by simp [getB, setB], hi.rw_, rfl, ?_⟩
+    show b.hasFile = (getH (step bw1.w (.close b1.slot)).1 b1.slot).isSome
+    rw [hclose, getH_setH_same, hi.hf]; rfl
+
+def brun (bw : BWorld) (ops : List BOp) : BWorld := ops.foldl (fun w o => (bstep w o).1) bw
+
+def bouts : BWorld → List BOp → List BOut
+  | _, [] => []
+  | bw, o :: ops => (bstep bw o).2 :: bouts (bstep bw o).1 ops
+
+def putOpsB (c : Nat) (ps : List KV) : List BOp := ps.map (fun kv => BOp.put c kv.key kv.val kv.key.length)
+
+/-- Any number of puts of fresh keys inside a writing session, for every buffer size: all succeed, the
+invariant holds afterwards, and stored ++ queued grew by exactly those pairs in order. -/
+theorem cputs_ok (ps : List KV) : ∀ {bw : BWorld} {c : Nat} {b : Backend} {h1 h2 b0 : Bytes} {recs : List KV},
+    BInv bw c b h1 h2 b0 recs → (∀ kv ∈ ps, kv.ok) → ((recs ++ b.queue ++ ps).map (·.key)).Nodup →
+    ∃ b' recs', BInv (brun bw (putOpsB c ps)) c b' h1 h2 b0 recs' ∧ recs' ++ b'.queue = recs ++ b.queue ++ ps ∧
+      (bouts bw (putOpsB c ps)).all (· == .ok) = true := by
+  induction ps with
+  | nil => intro bw c b h1 h2 b0 recs hi _ _; exact ⟨b, recs, hi, by simp, rfl⟩
+  | cons p ps ih =>
+    intro bw c b h1 h2 b0 recs hi hok hnd
+    have hnew : p.key ∉ b.keys := by
+      rw [hi.keys, ← List.map_append]
+      intro hmem
+      rw [List.map_append, List.nodup_append] at hnd
+      exact hnd.2.2 _ hmem _ (by simp) rfl
+    obtain ⟨bw', b', recs', hstep, hi', hsum, _⟩ := cput_ok hi p.key p.val p.key.length hnew (hok p (by simp)).1 (hok p (by simp)).2
+    have hnd' : ((recs' ++ b'.queue ++ ps).map (·.key)).Nodup := by
+      rw [hsum]; simpa [List.append_assoc] using hnd
+    obtain ⟨b'', recs'', hi'', hsum'', houts⟩ := ih hi' (fun kv hkv => hok kv (by simp [hkv])) hnd'
+    refine ⟨b'', recs'', ?_, ?_, ?_⟩
+    · simpa [brun, putOpsB, hstep] using hi''
+    · rw [hsum'', hsum]; simp [List.append_assoc]
+    · simp only [putOpsB, List.map_cons, bouts, hstep, List.all_cons]
+      simpa [putOpsB] using houts
+
+/-- One complete writing session: `with c.writing(): for k, v in puts: c[k] = v`. -/
+def sessionOps (c : Nat) (ps : List KV) : List BOp := .begin c true :: (putOpsB c ps ++ [.end_ c])
+
+theorem brun_append (bw : BWorld) (a b : List BOp) : brun bw (a ++ b) = brun (brun bw a) b := by
+  simp [brun, List.foldl_append]
+
+/-- **No record of a completed session is lost, for every buffer size**: a complete writing session that
+puts fresh keys leaves a well-formed library holding exactly the former records followed by the new ones,
+with no session open and the backend idle — ready for the next session. -/
+theorem session_commits {bw : BWorld} {c : Nat} {b : Backend} {h1 h2 b0 : Bytes} {recs : List KV}
+    (hw : WF bw.w h1 h2 b0 recs) (hc : AllClosed bw.w) (hi : Idle bw c b) (ps : List KV)
+    (hok : ∀ kv ∈ ps, kv.ok) (hnd : ((recs ++ ps).map (·.key)).Nodup) :
+    ∃ b', WF (brun bw (sessionOps c ps)).w h1 h2 b0 (recs ++ ps) ∧ AllClosed (brun bw (sessionOps c ps)).w ∧
+      Idle (brun bw (sessionOps c ps)) c b' := by
+  obtain ⟨bw1, b1, hbeg, hi1, hq1⟩ := begin_establishes hw hc hi
+  obtain ⟨b2, recs2, hi2, hsum, _⟩ := cputs_ok ps hi1 hok (by simpa [hq1] using hnd)
+  obtain ⟨bw3, b3, hend, hw3, hc3, hi3⟩ := end_restores hi2
+  refine ⟨b3, ?_, ?_, ?_⟩ <;>
+  · have hrun : brun bw (sessionOps c ps) = bw3 := by
+      simp only [sessionOps, brun, List.foldl_cons, hbeg, List.foldl_append, List.foldl_nil]
+      simp only [brun] at hend hi2
+      rw [hend]
+    rw [hrun]
+    first
+      | (rw [hsum, hq1] at hw3; simpa using hw3)
+      | exact hc3
+      | exact hi3
+
+/-- … and so for any number of sessions in a row (induction over the list of sessions): the library ends
+up holding every record of every session, in order. -/
+theorem sessions_accumulate (sessions : List (List KV)) : ∀ {bw : BWorld} {c : Nat} {b : Backend} {h1 h2 b0 : Bytes}
+    {recs : List KV}, WF bw.w h1 h2 b0 recs → AllClosed bw.w → Idle bw c b →
+    (∀ ps ∈ sessions, ∀ kv ∈ ps, kv.ok) → ((recs ++ sessions.flatten).map (·.key)).Nodup →
+    ∃ b', WF (brun bw (sessions.flatMap (sessionOps c))).w h1 h2 b0 (recs ++ sessions.flatten) ∧
+      AllClosed (brun bw (sessions.flatMap (sessionOps c))).w ∧ Idle (brun bw (sessions.flatMap (sessionOps c))) c b' := by
+  induction sessions with
+  | nil => intro bw c b h1 h2 b0 recs hw hc hi _ _; exact ⟨b, by simpa [brun] using hw, by simpa [brun] using hc, by simpa [brun] using hi⟩
+  | cons ps rest ih =>
+    intro bw c b h1 h2 b0 recs hw hc hi hok hnd
+    have hnd1 : ((recs ++ ps).map (·.key)).Nodup := by
+      have : (recs ++ (ps :: rest).flatten) = (recs ++ ps) ++ rest.flatten := by simp [List.append_assoc]
+      rw [this, List.map_append] at hnd
+      exact (List.nodup_append.mp hnd).1
+    obtain ⟨b1, hw1, hc1, hi1⟩ := session_commits hw hc hi ps (hok ps (by simp)) hnd1
+    obtain ⟨b2, hw2, hc2, hi2⟩ := ih hw1 hc1 hi1 (fun qs hqs => hok qs (by simp [hqs]))
+      (by simpa [List.append_assoc] using hnd)
+    refine ⟨b2, ?_, ?_, ?_⟩
+    · simpa [List.flatMap_cons, brun_append, List.append_assoc] using hw2
+    · simpa [List.flatMap_cons, brun_append] using hc2
+    · simpa [List.flatMap_cons, brun_append] using hi2
+
+
+
+@[simp] theorem setB_w (bw : BWorld) (c : Nat) (x : Option Backend) : (setB bw c x).w = bw.w := rfl
+
+/-- **Creating a collection on a fresh path** yields a well-formed empty library (header comment preserved),
+no session open, the backend idle: the starting point of `sessions_accumulate`, so its hypotheses are
+met by every library created through the public constructor. -/
+theorem cnew_establishes (c : Nat) (bufsize : Int) (comment : Bytes) (hcm : comment.length < 65536) :
+    ∃ b, WF (bstep initB (.cnew c bufsize false false comment)).1.w defaultH1 comment [] [] ∧
+      AllClosed (bstep initB (.cnew c bufsize false false comment)).1.w ∧
+      Idle (bstep initB (.cnew c bufsize false false comment)).1 c b := by
+  have hw0 := wf_create initWorld (tmpSlot c) .x [] comment [] ⟨hcm, by simp⟩ (Or.inr rfl) (fun j _ => rfl)
+  have hw1 := wf_close hw0 (tmpSlot c)
+  have hbw : (bstep initB (.cnew c bufsize false false comment)).1 =
+      setB { initB with w := setH (setH (step (step initWorld (.new (tmpSlot c) .x [] comment [])).1 (.close (tmpSlot c))).1
+                (tmpSlot c) none) (slotOf c) none } c
+        (some { slot := slotOf c, hasFile := false, readonly := false, bufsize := bufsize, queue := [], keys := [],
+                usedmem := 0, state := .idle }) := by
+    simp [bstep, initB, initWorld]
+  have hstep1 : (step initWorld (.new (tmpSlot c) .x [] comment [])).1 =
+      setH { initWorld with file := some (encHeader (newHandle .x [] comment []).h1 comment []) } (tmpSlot c)
+        (some { newHandle .x [] comment [] with closed := false, eof := some (bofOf comment []) }) := rfl
+  rw [hbw]
+  refine ⟨{ slot := slotOf c, hasFile := false, readonly := false, bufsize := bufsize, queue := [], keys := [],
+            usedmem := 0, state := .idle }, ?_, ?_, ⟨by simp [getB, setB], rfl, rfl, ?_⟩⟩
+  · have h2 := wf_setH (wf_setH (by rw [← hstep1] at hw1; exact hw1) (tmpSlot c) none (fun h he => by cases he))
+      (slotOf c) none (fun h he => by cases he)
+    simpa [newHandle, defaultH1, setB_w] using h2
+  · intro j h hg
+    simp only [setB_w] at hg
+    by_cases hj1 : j = slotOf c
+    · subst hj1; rw [getH_setH_same] at hg; cases hg
+    · rw [getH_setH_other _ _ _ _ hj1] at hg
+      by_cases hj2 : j = tmpSlot c
+      · subst hj2; rw [getH_setH_same] at hg; cases hg
+      · rw [getH_setH_other _ _ _ _ hj2] at hg
+        -- any other slot is untouched by new/close of the temporary handle: it is empty
+        rw [hstep1] at hg
+        simp only [step, getH_setH_same] at hg
+        rw [getH_setH_other _ _ _ _ hj2, getH_setH_other _ _ _ _ hj2] at hg
+        cases hg
+  · simp only [setB_w, getH_setH_same]; rfl
+
 
 /-! ### a concrete buffered session (non-vacuity / sanity): with a large buffer the pair is listed and
 readable before anything reached the file, a duplicate and an oversize key are refused, and after the
